@@ -273,9 +273,14 @@ func ScanNames(dir string, overlay map[string][]byte) (*Vocab, error) {
 }
 
 // newNames returns the functions / closures of cur that the vocabulary does not know, per package.
+// lastRenames: package -> new name -> old name, for the functions newNames took for renames and could pair uniquely
+// (exactly one function with that signature disappeared and exactly one appeared).
+var lastRenames map[string]map[string]string
+
 func newNames(cur, voc *Vocab) (map[string]map[string]bool, map[string]map[string]map[string]bool) {
 	nf := map[string]map[string]bool{}
 	nc := map[string]map[string]map[string]bool{}
+	lastRenames = map[string]map[string]string{}
 	for pk, names := range cur.Funcs {
 		known, ok := voc.Funcs[pk]
 		if !ok {
@@ -291,9 +296,25 @@ func newNames(cur, voc *Vocab) (map[string]map[string]bool, map[string]map[strin
 		}
 		// signatures of the functions that have disappeared from the package
 		goneSigs := map[string]int{}
+		goneBySig := map[string][]string{}
 		for _, n := range known {
 			if !curSet[n] {
 				goneSigs[voc.Sigs[pk+"|"+n]]++
+				goneBySig[voc.Sigs[pk+"|"+n]] = append(goneBySig[voc.Sigs[pk+"|"+n]], n)
+			}
+		}
+		newBySig := map[string][]string{}
+		for _, n := range names {
+			if !ks[n] {
+				newBySig[cur.Sigs[pk+"|"+n]] = append(newBySig[cur.Sigs[pk+"|"+n]], n)
+			}
+		}
+		for sg, olds := range goneBySig {
+			if news := newBySig[sg]; sg != "" && len(olds) == 1 && len(news) == 1 {
+				if lastRenames[pk] == nil {
+					lastRenames[pk] = map[string]string{}
+				}
+				lastRenames[pk][news[0]] = olds[0]
 			}
 		}
 		for _, n := range names {
@@ -401,6 +422,10 @@ func Normalise(cfg Config, voc *Vocab) (*NormResult, error) {
 			newRangePkgs[strings.SplitN(key, "|", 2)[0]] = true
 		}
 	}
+	renames := lastRenames
+	for pk := range renames {
+		newRangePkgs[pk] = true
+	}
 	if len(nf) == 0 && len(nc) == 0 && len(newRangePkgs) == 0 {
 		return nil, nil
 	}
@@ -471,7 +496,10 @@ func Normalise(cfg Config, voc *Vocab) (*NormResult, error) {
 					src := in.srcOf(fname)
 					var edits []textEdit
 					if round == 0 {
-						edits = in.tailDupEdits(f, src)
+						edits = in.renameBackEdits(f, renames[rel])
+						if len(edits) == 0 {
+							edits = in.tailDupEdits(f, src)
+						}
 					}
 					if len(edits) == 0 {
 						edits = in.fileEdits(f, fname, src)
@@ -2275,4 +2303,188 @@ func (in *inliner) tailDupEdits(f *ast.File, src []byte) []textEdit {
 	}
 	_ = src
 	return edits
+}
+
+// ---- renamed helpers: the old name back ------------------------------------------------------------------------------
+
+// renameBackEdits: an unexported function that was only renamed (same signature; exactly one such function disappeared
+// and exactly one appeared) gets its reference name back — in its declaration and at every use in the package — so that
+// rules anchored at it and patterns naming it keep working. A plain function that became a method whose receiver is not
+// used is turned back into the function (the receiver expression at call sites must be a plain identifier or selector).
+func (in *inliner) renameBackEdits(f *ast.File, pairs map[string]string) []textEdit {
+	if len(pairs) == 0 {
+		return nil
+	}
+	info := in.pk.TypesInfo
+	var edits []textEdit
+	for newName, oldName := range pairs {
+		plan := in.renamePlan(newName, oldName)
+		if plan == nil {
+			continue
+		}
+		obj := plan.obj
+		// declaration (if in this file)
+		for _, d := range f.Decls {
+			fd, ok := d.(*ast.FuncDecl)
+			if !ok || info.Defs[fd.Name] != obj {
+				continue
+			}
+			if plan.dropRecv {
+				edits = append(edits, textEdit{off: in.offset(fd.Recv.Pos()), end: in.offset(fd.Name.Pos()), text: ""})
+			}
+			edits = append(edits, textEdit{off: in.offset(fd.Name.Pos()), end: in.offset(fd.Name.End()), text: plan.oldBase, prio: 1})
+		}
+		// uses (in this file)
+		ast.Inspect(f, func(n ast.Node) bool {
+			switch x := n.(type) {
+			case *ast.SelectorExpr:
+				if info.Uses[x.Sel] == obj {
+					if plan.dropRecv {
+						edits = append(edits, textEdit{off: in.offset(x.Pos()), end: in.offset(x.End()), text: plan.oldBase})
+					} else {
+						edits = append(edits, textEdit{off: in.offset(x.Sel.Pos()), end: in.offset(x.Sel.End()), text: plan.oldBase})
+					}
+					return false
+				}
+			case *ast.Ident:
+				if info.Uses[x] == obj {
+					edits = append(edits, textEdit{off: in.offset(x.Pos()), end: in.offset(x.End()), text: plan.oldBase})
+				}
+			}
+			return true
+		})
+	}
+	if len(edits) > 0 {
+		for newName, oldName := range pairs {
+			note := fmt.Sprintf("%s: %s renamed back to %s", in.rel, newName, oldName)
+			dup := false
+			for _, l := range in.res.Inlined {
+				if l == note {
+					dup = true
+				}
+			}
+			if !dup && in.renamePlan(newName, oldName) != nil {
+				in.res.Inlined = append(in.res.Inlined, note)
+			}
+		}
+	}
+	return edits
+}
+
+type renamePlan struct {
+	obj      *types.Func
+	oldBase  string
+	dropRecv bool
+}
+
+func (in *inliner) renamePlan(newName, oldName string) *renamePlan {
+	info := in.pk.TypesInfo
+	split := func(n string) (recv, base string) {
+		if i := strings.Index(n, "."); i >= 0 {
+			return n[:i], n[i+1:]
+		}
+		return "", n
+	}
+	newRecv, newBase := split(newName)
+	oldRecv, oldBase := split(oldName)
+	if ast.IsExported(newBase) || ast.IsExported(oldBase) {
+		return nil
+	}
+	var fd *ast.FuncDecl
+	for _, f := range in.pk.Syntax {
+		for _, d := range f.Decls {
+			if x, ok := d.(*ast.FuncDecl); ok && declName(x) == newName {
+				fd = x
+			}
+		}
+	}
+	if fd == nil {
+		return nil
+	}
+	obj, _ := info.Defs[fd.Name].(*types.Func)
+	if obj == nil {
+		return nil
+	}
+	plan := &renamePlan{obj: obj, oldBase: oldBase}
+	switch {
+	case newRecv == oldRecv:
+		// a plain rename
+	case oldRecv == "" && newRecv != "":
+		// function -> method: only when the receiver is not used and every use is a call on a plain receiver expression
+		if fd.Recv == nil || len(fd.Recv.List) != 1 {
+			return nil
+		}
+		if len(fd.Recv.List[0].Names) == 1 && fd.Recv.List[0].Names[0].Name != "_" {
+			ro := info.Defs[fd.Recv.List[0].Names[0]]
+			used := false
+			ast.Inspect(fd.Body, func(n ast.Node) bool {
+				if id, ok := n.(*ast.Ident); ok && ro != nil && info.Uses[id] == ro {
+					used = true
+				}
+				return true
+			})
+			if used {
+				return nil
+			}
+		}
+		plan.dropRecv = true
+	default:
+		return nil
+	}
+	// the old name must be free: no package-level object of that name, and nothing local shadows it at a use
+	if oldRecv == "" && in.pk.Types.Scope().Lookup(oldBase) != nil {
+		return nil
+	}
+	ok := true
+	for _, f := range in.pk.Syntax {
+		parents := map[ast.Node]ast.Node{}
+		var stack []ast.Node
+		ast.Inspect(f, func(n ast.Node) bool {
+			if n == nil {
+				stack = stack[:len(stack)-1]
+				return false
+			}
+			if len(stack) > 0 {
+				parents[n] = stack[len(stack)-1]
+			}
+			stack = append(stack, n)
+			return true
+		})
+		ast.Inspect(f, func(n ast.Node) bool {
+			id, isID := n.(*ast.Ident)
+			if !isID || info.Uses[id] != obj {
+				return true
+			}
+			if sc := in.pk.Types.Scope().Innermost(id.Pos()); sc != nil && oldRecv == "" {
+				if _, at := sc.LookupParent(oldBase, id.Pos()); at != nil {
+					ok = false
+				}
+			}
+			if plan.dropRecv {
+				se, isSel := parents[id].(*ast.SelectorExpr)
+				if !isSel || se.Sel != id {
+					ok = false
+					return true
+				}
+				call, isCall := parents[se].(*ast.CallExpr)
+				if !isCall || call.Fun != ast.Expr(se) {
+					ok = false // a method value: cannot be turned back
+				}
+				switch x := se.X.(type) {
+				case *ast.Ident:
+				case *ast.SelectorExpr:
+					if _, plain := x.X.(*ast.Ident); !plain {
+						ok = false
+					}
+				default:
+					ok = false
+				}
+			}
+			return true
+		})
+	}
+	if !ok {
+		return nil
+	}
+	return plan
 }
